@@ -672,6 +672,8 @@ class CallMixin:
         if x.ty.kind != "list":
             raise Unsupported("sorted(%r)" % x.ty)
         self.sort_key_obligation(node, x.ty.args[0], st, ctx)
+        if any(k.arg == "key" for k in node.keywords):
+            self.notes.add("sorted(): the key function is not evaluated (assumed not to raise); only 'same members, same length' is used")
         r = st.new_ref()
         n = st.list_len(x.ty, x.t)
         el = z3.Const(fresh_name("sorted"), z3.ArraySort(I, x.ty.args[0].sort()))
@@ -684,6 +686,72 @@ class CallMixin:
             j = z3.Int(fresh_name("j"))
             st.assume(z3.ForAll([j], z3.Implies(z3.And(0 <= j, j < n), z3.And(0 <= el[j], el[j] < st.alloc)), patterns=[el[j]]))
         return res
+
+    # ---- value sets: set() / frozenset(generator) held in a local that is only tested with `in` and grown with .add ----
+    def _mkset(self, node, st, ctx):
+        if node.keywords or len(node.args) > 1:
+            raise Unsupported("set() with keywords")
+        if not node.args:
+            ety = getattr(self, "hint_set", None)
+            if ety is None:
+                raise Unsupported("set() without a declared element type (line %s)" % node.lineno)
+            return SV(SetT(ety), z3.K(ety.sort(), z3.BoolVal(False)))
+        arg = node.args[0]
+        if not isinstance(arg, (ast.GeneratorExp, ast.ListComp)):
+            raise Unsupported("set(<%s>) (line %s)" % (type(arg).__name__, node.lineno))
+        vars_, g, elt, _ = self.comp_parts(arg, st, ctx)
+        if elt.ty.kind == "tuple":
+            term = tuple_term(elt)
+        elif elt.ty.kind in ("int", "str", "bool") and elt.none is None:
+            term = elt.t
+        else:
+            raise Unsupported("set of %r (line %s)" % (elt.ty, node.lineno))
+        self.notes.add("set()/frozenset() values are mathematical sets of their (hashable, immutable) elements")
+        t = z3.Const(fresh_name("sx"), elt.ty.sort())
+        # {elt | binding satisfies the guard}: membership is existence of a binding
+        return SV(SetT(elt.ty), z3.Lambda([t], z3.Exists(vars_, z3.And(g, term == t))))
+
+    def bi_set(self, node, st, ctx):
+        return self._mkset(node, st, ctx)
+
+    def bi_frozenset(self, node, st, ctx):
+        return self._mkset(node, st, ctx)
+
+    def set_local_ok(self, name):
+        """value semantics for a set held in a local are exact only if the object has no second name: every use of the
+        local in the function must be `x in name`, `x not in name`, `name.add(..)` or its (re)binding"""
+        fn = getattr(self, "cur_fn_node", None)
+        if fn is None:
+            return False
+        parents = {}
+        for n in ast.walk(fn):
+            for ch in ast.iter_child_nodes(n):
+                parents[id(ch)] = n
+        for n in ast.walk(fn):
+            if isinstance(n, ast.Name) and n.id == name and isinstance(n.ctx, ast.Load):
+                p = parents.get(id(n))
+                if isinstance(p, ast.Compare) and n in p.comparators and all(isinstance(o, (ast.In, ast.NotIn)) for o in p.ops):
+                    continue
+                if isinstance(p, ast.Attribute) and p.attr == "add" and isinstance(parents.get(id(p)), ast.Call) and parents[id(p)].func is p:
+                    continue
+                return False
+        return True
+
+    def m_set_add(self, base, node, st, ctx):
+        tgt = node.func.value
+        if not isinstance(tgt, ast.Name) or tgt.id not in st.locals or not self.set_local_ok(tgt.id):
+            raise Unsupported("set.add on a set that may have a second name (line %s)" % node.lineno)
+        (x,) = self.args_of(node, st, ctx)
+        ety = base.ty.args[0]
+        if x.ty != ety:
+            if x.ty.kind == "tuple" and ety.kind == "tuple":
+                xt = tuple_term(x)
+            else:
+                raise Unsupported("set.add(%r) on %r" % (x.ty, base.ty))
+        else:
+            xt = tuple_term(x) if x.ty.kind == "tuple" else x.t
+        st.locals[tgt.id] = SV(base.ty, z3.Store(base.t, xt, z3.BoolVal(True)))
+        return mk_none()
 
     def bi_iter(self, node, st, ctx):
         """iter(list): a ghost iterator object over the list (class 'Iter' for lists of values, 'RowIter' for lists of rows,
